@@ -19,6 +19,9 @@ LEVEL = {
  "C11": ("bounded symbolic model checking of the real writer and reader goroutines (cooperative scheduling, select forks) against BEP byte layouts written independently, and of the writer->reader round trip under symbolic fragmentation", "4 C11"),
  "C05": ("only the durability precondition so far: every data-file open carries O_SYNC (symbolic execution of FileStorage.Open with os.OpenFile recorded). Crash-point reasoning over the write/persist order is not built yet.", "4 C05"),
  "C04": ("bounded symbolic model checking of the real torrent lifecycle handlers: all event sequences up to the stated length from a freshly constructed torrent (real newTorrent), with symbolic worker results, checking a written lifecycle invariant after every event", "4 C04"),
+ "C17": ("bounded symbolic model checking of the write-cache reservation manager (real goroutines, cooperative scheduling with select forking): request/cancel/release sequences never strand the caller and keep the accounting within its limits. Other limits of the property (connection caps, queue caps, rate limits) are not covered yet.", "4 C17"),
+ "C12": ("bounded symbolic model checking of the MSE synchronisation scan (readSync) for symbolic padding, scan limit and fragmentation. The two-party handshake, cipher negotiation and the encryption policy matrix are not covered yet.", "4 C12"),
+ "C19": ("bounded symbolic model checking of every site where a private torrent could start DHT/PEX activity or accept an address (real handlers on a real torrent value; all configuration combinations; arbitrary PEX/DHT addresses)", "4 C19"),
 }
 NOTE = "trusted base: go/packages+go/ssa (x/tools v0.50.0) reading of the source, the engine's instruction semantics (validated by native replay of sampled paths and of every counterexample), z3 4.8.12 / z3 5.1.0 / cvc5 1.0.3; named stubs listed in the evidence file; bounds as stated per harness in the evidence; anything beyond the bounds is outside the claim"
 
